@@ -28,16 +28,38 @@ def mkscratch(prefix='ergo-verif-'):
     return tempfile.mkdtemp(prefix=prefix, dir=SCRATCH_ROOT)
 
 
+class ImplCrash(Exception):
+    """The implementation (its library code reached through verif-rpc) died on an input: a Go panic.
+    Carries the request (and the log file it pointed at) so the report is replayable."""
+
+    def __init__(self, req, stderr, file_bytes=None):
+        Exception.__init__(self, 'implementation crashed on request %s' % json.dumps(req)[:200])
+        self.req, self.stderr, self.file_bytes = req, stderr, file_bytes
+
+
 class Rpc:
     def __init__(self):
-        self.p = subprocess.Popen([ERGO, 'verif-rpc'], stdin=subprocess.PIPE, stdout=subprocess.PIPE, cwd='/')
+        self.errf = tempfile.TemporaryFile()
+        self.p = subprocess.Popen([ERGO, 'verif-rpc'], stdin=subprocess.PIPE, stdout=subprocess.PIPE, stderr=self.errf, cwd='/')
 
     def call(self, **req):
-        self.p.stdin.write((json.dumps(req) + '\n').encode())
-        self.p.stdin.flush()
-        line = self.p.stdout.readline()
+        try:
+            self.p.stdin.write((json.dumps(req) + '\n').encode())
+            self.p.stdin.flush()
+            line = self.p.stdout.readline()
+        except BrokenPipeError:
+            line = b''
         if not line:
-            raise RuntimeError('rpc died')
+            self.p.wait()
+            self.errf.seek(0)
+            err = self.errf.read().decode('utf-8', 'replace')
+            fb = None
+            cands = [req.get('path')] + [os.path.join(req.get('dir') or '/nonexistent', n) for n in ('plans.jsonl', 'events.jsonl')]
+            for c in cands:
+                if isinstance(c, str) and os.path.isfile(c):
+                    fb = open(c, 'rb').read()[:200000].decode('utf-8', 'replace')
+                    break
+            raise ImplCrash(req, err[:3000], fb)
         return json.loads(line)
 
     def close(self):
